@@ -246,11 +246,10 @@ def e2e(strings):
     return bad
 
 
-def m12b(res, mod, tier):
+def m12b(res, mod, tier, L=8):
     """parse_lit_str against the escape table"""
     pending = []
     total = 0
-    L = 8
     fams = [('"', None), ("'", None)]
     for quote, _ in fams[:1 if tier != 'thorough' else 2]:
         t0 = time.time()
